@@ -30,6 +30,7 @@ FIXED_DEVS = {"InitSkipsSetgid", "UsernameUnbound", "ZeroUnset"}
 MUTANT_DEVS = {"SwallowEperm": "BootErrorNotSilent", "UidBeforeGid": "PermittedDropSucceeds", "DropAfterLoad": "WorkerCredsExact",
                "NoTmpChown": "HeartbeatWritable"}
 
+HIGH_IDS = (4294967293, 4294967294)
 REAL_IDS = {"root": (0, 0), "other": (33, 33), "user": (65534, 65534)}
 UNKNOWN_UID = 4242
 
@@ -183,9 +184,36 @@ def wrong_parts(rec, x):
     return parts
 
 
+def small_ids(e):
+    """TLC's integers are 32-bit signed: a record that mentions an id >= 2**31 is renamed injectively (0 stays 0,
+    the other ids are numbered in ascending order) -- the monitor only compares ids and tests for 0"""
+    ids = set()
+
+    def walk(x, f):
+        if isinstance(x, bool):
+            return x
+        if isinstance(x, int):
+            return f(x)
+        if isinstance(x, list):
+            return [walk(y, f) for y in x]
+        if isinstance(x, dict):
+            return {k: (walk(v, f) if k != "calls" else v) for k, v in x.items()}
+        return x
+    walk({k: v for k, v in e.items() if k != "case"}, lambda n: ids.add(n) or n)
+    if not any(n >= 2 ** 31 for n in ids):
+        return e
+    ren = {n: k + 1 for k, n in enumerate(sorted(ids - {0}))}
+    ren[0] = 0
+    out = walk({k: v for k, v in e.items() if k != "case"}, lambda n: ren[n])
+    out["case"] = e["case"]
+    return out
+
+
 def signature(v, rec):
     c = rec["case"]
     ig = "initgroups=%s" % ("on" if c["init"] else "off")
+    if rec.get("variant"):
+        ig += "," + rec["variant"]
     if v in ("WorkerCredsExact", "BootErrorNotSilent", "DropBeforeLoad"):
         parts = symptom(rec)
         what = "+".join(parts) + ("-not-set" if parts == ["groups"] else "-not-dropped")
@@ -210,7 +238,7 @@ def judge(ctx, traces):
                                    "atload", "w", "beat", "eperm", "calls")}
             e["sock"] = r.get("sock") or []
             e["capless"] = bool(r.get("capless"))
-            evs.append(e)
+            evs.append(small_ids(e))
         clean.append({"ev": evs})
     verdicts, stats = tlc.validate_batch("PrivsTrace", "PrivsTrace.cfg", clean, name="PrivsTrace_C20")
     ctx.add_traces(sum(len(t) for t in traces), stats)
@@ -288,12 +316,28 @@ def c20(ctx):
             rec = drv.run_fake(row)
             rec["sock"] = []
             traces.append([rec])
+            if row["case"].get("cap", "all") == "all":
+                # the same with the worker timeout switched off (timeout = 0): the heartbeat file is still touched
+                rec = drv.run_fake(dict(row, timeout=0))
+                rec["sock"] = []
+                traces.append([rec])
 
         ctx.coverage["fake_kernel_cases"] = len(rows)
         # (b) real forked processes: the complete product with real ids and spellings
         if os.geteuid() == 0:
             # (a missing capability is only played on the fake kernel)
             specs = [real_spec(row, n) for n, row in enumerate(r for r in rows if r["case"].get("cap", "all") == "all")]
+            for n, sp in enumerate(list(specs)):
+                if n % 4 == 0:
+                    specs.append(dict(sp, timeout=0, variant="timeout=0"))
+            # ids in the upper half of the 32-bit id space (no passwd entry), as a number and as a numeric string
+            for sp in list(specs):
+                c = sp["case"]
+                if c["master"] == "root" and c["user"] == "other" and c["group"] == "other" and not sp["known"] \
+                        and not sp.get("variant") and "user_spelling" not in sp:
+                    for spell in (str, int):
+                        specs.append(dict(sp, uid=HIGH_IDS[0], gid=HIGH_IDS[1], ug=[], user_spelling=spell(HIGH_IDS[0]),
+                                          group_spelling=spell(HIGH_IDS[1]), variant="high-id-%s" % spell.__name__))
             recs = call_driver("real", specs)
             bad = [r for r in recs if r.get("end") == "harness-error"]
             if bad:
